@@ -3,6 +3,8 @@
 mod util;
 mod c02;
 mod c09;
+mod c10;
+mod c12;
 mod c20;
 
 fn main() {
@@ -21,6 +23,12 @@ fn main() {
         ("c02", "run") => c02::run(),
         ("c09", "gen") => c09::gen(seed, thorough),
         ("c09", "run") => c09::run(),
+        ("c10", "gen") => c10::gen(seed, thorough, false),
+        ("c10", "run") => c10::run(true),
+        ("c14", "gen") => c10::gen(seed, thorough, true),
+        ("c14", "run") => c10::run(false),
+        ("c12", "gen") => c12::gen(seed, thorough),
+        ("c12", "run") => c12::run(),
         ("c20", "gen") => c20::gen(seed, thorough),
         ("c20", "run") => c20::run(),
         _ => {
